@@ -158,22 +158,34 @@ def _priced_pool_ok(site):
     named = _pools_named(full)
     pegging = b.nname.endswith("process_pegging")
     want = lambda c: c.startswith("Eq(0, ") and (c.endswith(".lefts)") or c.endswith(".rights)"))
-    groups = {}
-    for e, c, bi in q.pick_atoms(b, want):
-        if not want(c):
-            continue
-        cm = q.as_cmp(e[1] if e[0] == "not" else e)
-        if not cm:
-            continue
-        subj = cm[2] if q.const_val(cm[1]) == 0 else cm[1]
-        for pk in _pools_named(_resolved_sig(b, subj)):
-            groups.setdefault(pk, {}).setdefault("lefts" if c.endswith(".lefts)") else "rights", []).append(e)
+    def _groups():
+        g = {}
+        for e, c, bi in q.pick_atoms(b, want):
+            if not want(c):
+                continue
+            cm = q.as_cmp(e[1] if e[0] == "not" else e)
+            if not cm:
+                continue
+            subj = cm[2] if q.const_val(cm[1]) == 0 else cm[1]
+            for pk in _pools_named(_resolved_sig(b, subj)):
+                g.setdefault(pk, {}).setdefault("lefts" if c.endswith(".lefts)") else "rights", []).append(e)
+        return g
+    groups0 = _groups()
     t902 = [e for bi, e in q.call_exprs(b, "UnsealedState::tip_902")]
     for flag in ((1, 0) if t902 else (None,)):
         base = {e: flag for e in t902} if flag is not None else {}
         fb = force(b, base)
         if site.bb not in fb.reach:
             continue                                    # not executed under this TIP-902 setting
+        # which pool a tested reserve belongs to, read along the paths this setting leaves (`let pool = if tip_902 { ES } else { ME }; if pool.lefts == 0 ..`
+        # names one pool per setting); atoms are the same objects, so the two readings are merged
+        groups = {k: {s_: list(v_) for s_, v_ in d.items()} for k, d in groups0.items()}
+        if flag is not None:
+            with b.restricted(fb.reach):
+                for k, d in _groups().items():
+                    for s_, v_ in d.items():
+                        cur = groups.setdefault(k, {}).setdefault(s_, [])
+                        cur.extend(x for x in v_ if x not in cur)
         # pools read at all under this setting (a value joined from both branches names the pools of both; only one branch runs)
         used = set()
         for gb, ge in q.call_exprs(b, "SmtMapping::get"):
